@@ -189,6 +189,10 @@ def part_c(res, rng, tier, seed, d):
         for fmt, sc in plans:
             fam, res_, width = l1b.FMT[fmt]["family"], l1b.FMT[fmt]["res"], l1b.FMT[fmt]["width"]
             n = rng.choice([40, 120]) if res_ == "gac" else rng.choice([60, 150])
+            if rep == 0 and fmt == "gac_klm":
+                n = 4500        # a long pass (more than a third of an orbit)
+            if rep == 1 and fmt == "gac_pod" and tier == "thorough":
+                n = 13000       # a whole orbit
             # any position of the orbit (period about 102 min), any day of a month
             t0 = tg.ms_of(datetime.datetime(2001, 3, 4, 0, 0, 0)) + rng.randrange(0, 30 * 86400) * 1000
             start = tg.dt_of(t0)
